@@ -105,5 +105,15 @@ GROUP = {
             // transparency: afterwards the alias means the canonical
             (r is Ok && !old(self).is_alias(value)) ==> final(self).lookup(value) == Some(canonical.interned()),      // @InternStore.insert_alias.alias_means_canonical
 """, **ST),
+        # ---- `okane accounts` / the register's account set: only canonical entries of the store are listed, never an alias
+        U("callsite:ReportContext::all_accounts_unsorted.keeps_canonical_only", "core/src/report/context.rs", [r"impl<'ctx> ReportContext<'ctx>", r"fn all_accounts_unsorted\b"], fn="listed_account", no_canary=True,
+          slice=r"filter_map\(\|x\| (match x \{[^}]*\}[^}]*\})\)", slice_count=1, lifetimes="static",
+          slice_template="""fn listed_account<T: Copy>(x: StoredValue<T>) -> (r: Option<T>)
+    ensures
+        // C12: reports show canonical names only: an alias entry of the store is never listed as an account of its own
+        r == (match x { StoredValue::Canonical(c) => Some(c), StoredValue::Alias { .. } => None }),   // @all_accounts.aliases_are_never_listed
+{
+    {EXPR}
+}"""),
     ],
 }
